@@ -98,9 +98,15 @@ def run(ctx):
     SRC = "p:remove_headers_on_redirect"
     for t_ in sorted(stores2):
         op, args = _d2(t_)
+        if t_ in ("frozenset(set())", "frozenset()", "set()", "frozenset(list())"):
+            continue  # the builder before its loop ran (no names configured): nothing to lower-case
         ok = op in ("frozenset", "set") and len(args) == 1
         if ok:
             op2, a2 = _d2(args[0])
+            if op2 in ("set", "list") and len(a2) == 1:
+                op2, a2 = _d2(a2[0])  # a set built first, then frozen
+            if op2 == "rep":
+                op2 = "gen"  # built by an explicit loop adding one lower-cased name per configured name
             # a comprehension over the configured names whose element is the lower-cased name, without a filter
             ok = op2 in ("gen", "listcomp", "setcomp") and len(a2) == 2 and a2[1] == SRC and _d2(a2[0]) == ("lower", (f"each({SRC})",))
         ctx.ob(R2, init.qual, f"`{t_[:100]}` lower-cases the configured names", ok, "" if ok else "names configured as `Authorization` would never match the lower-cased test", node=init.node)
